@@ -552,7 +552,9 @@ def _torch_cases(draw):
         "tool": "torch", "rate": rate, "comp": comp, "pre": draw(_pre_st), "post": draw(_post_st), "utts": utts,
         "channel": channel, "syntax": syn, "other_syntax": draw(st.sampled_from([None, None, None, "inline", "json", "yaml"])),
         "alias_key": draw(st.sampled_from(["alias", "name"])), "seed": draw(st.one_of(st.none(), st.integers(0, 1000))),
-        "manifest": draw(st.one_of(st.none(), st.none(), st.lists(st.integers(0, nutt - 1), max_size=2, unique=True))),
+        # (ids listed in the manifest: a drawn subset, or the ids that contain other ids as substrings)
+        "manifest": draw(st.one_of(st.none(), st.none(), st.lists(st.integers(0, nutt - 1), max_size=2, unique=True),
+                                   st.sampled_from([[0], [1], [0, 3], [4], [3, 1]]))),
         "workers": draw(st.sampled_from([0] * 11 + [2])),
         "ids": draw(st.integers(0, 2)),
     }
